@@ -524,6 +524,20 @@ O(id='SET_OF_decode_oer.b8', props=['C04', 'C14', 'C15'], kind='bounded', tier='
 O(id='SET_OF_decode_oer.chunk2', props=['C05'], kind='bounded', tier='experimental', entry='h_SET_OF_decode_oer_chunked', functions=['SET_OF_decode_oer', 'oer_fetch_quantity', 'asn_set_add'],
   defines=['VF_N=8'], unwind=5, cbmc=['--unwindset', 'oer_fetch_quantity.0:10,oer_fetch_quantity.1:10', '--no-malloc-may-fail'], bound='every split point of every input of at most 8 octets (two chunks)', min_props=80, timeout=900, **SFO)
 
+STUBT = 'member types are harness stubs (primitive TLV with the expected tag and one contents octet, stateless: RC_WMORE with consumed 0 until complete); descriptor laid out by hand in the shape asn1c emits'
+SQB = dict(harness='harness/h_seq_ber.c', units=[SK + 'constr_SEQUENCE.c', SK + 'ber_decoder.c', SK + 'ber_tlv_tag.c', SK + 'ber_tlv_length.c'],
+           link=[SK + 'ber_decoder.c', SK + 'ber_tlv_tag.c', SK + 'ber_tlv_length.c'], stubs=['stubs/bsearch.c'],
+           fp_restrict=[(r'ber_decoder\)$', ['sv_ber']), (r'free_struct\)$', ['sv_free']), (r'compar$', ['_t2e_cmp'])], trusted=[STUBT, 'stubs/bsearch.c'])
+for _v, _n, _d in ((0, 11, 'SEQUENCE { a [0] OPTIONAL, b CHOICE OPTIONAL (untagged: tag2el/bsearch path), c [2] }'), (1, 11, 'SEQUENCE { a [0] OPTIONAL, c [2], ..., b CHOICE OPTIONAL }, unknown additions primitive')):
+    O(id='SEQUENCE_decode_ber.v%d' % _v, props=['C03', 'C04', 'C14'], kind='bounded', tier='experimental', entry='h_SEQUENCE_decode_ber',
+      functions=['SEQUENCE_decode_ber', 'ber_check_tags', 'ber_fetch_tag', 'ber_fetch_length', 'ber_skip_length', '_t2e_cmp', 'SEQUENCE_free'],
+      defines=['VF_V=%d' % _v, 'VF_N=%d' % _n], unwind=9, cbmc=['--unwindset', 'h_SEQUENCE_decode_ber.0:%d,h_SEQUENCE_decode_ber.1:%d,ber_skip_length:2' % (_n + 2, _n + 2), '--malloc-may-fail', '--malloc-fail-null', '--memory-leak-check'],
+      bound=_d + '; every input of at most %d octets in an exact-size heap buffer; every allocation may fail' % _n, min_props=80, timeout=1800, **SQB)
+    O(id='SEQUENCE_decode_ber.chunk2.v%d' % _v, props=['C05'], kind='bounded', tier='experimental', entry='h_SEQUENCE_decode_ber_chunked',
+      functions=['SEQUENCE_decode_ber', 'ber_check_tags', 'ber_fetch_tag', 'ber_fetch_length', 'ber_skip_length', '_t2e_cmp'],
+      defines=['VF_V=%d' % _v, 'VF_N=%d' % _n], unwind=9, cbmc=['--unwindset', 'h_SEQUENCE_decode_ber_chunked.0:%d,ber_skip_length:2' % (_n + 2), '--no-malloc-may-fail'],
+      bound=_d + '; every split point k of every input of at most %d octets (two chunks)' % _n, min_props=80, timeout=1800, **SQB)
+
 for _o in OBLIGATIONS:
     if _o.get('enforce') and _o.get('kind') in ('enforce', 'width') and _o.get('tier') == 'quick' and 'C19' not in _o['props']:
         _o['props'] = _o['props'] + ['C19']
